@@ -44,6 +44,9 @@ type Features struct {
 	Funcs, Closures, Meta, Errors, Coroutines, Goto, Strings, Tables, Varargs, MultiAssign, Fenv int
 	FaultPct                                                                                     int // chance (percent) that a pcall body gets a deliberate fault
 	MaxStmts, MaxDepth                                                                           int
+	// BigK: the chunk starts with 260 distinct constants, so every later constant has an index
+	// above 255 and cannot be an RK operand (the compiler must load it into a register)
+	BigK bool
 }
 
 func CoreFeatures() Features {
@@ -506,6 +509,14 @@ func (g *Gen) Program() []Stmt {
 	g.push()
 	g.vararg = append(g.vararg, true)
 	body := g.stmts(g.R.Range(g.F.MaxStmts/2, g.F.MaxStmts), 0, true)
+	if g.F.BigK {
+		g.use("bigk-preamble")
+		pad := &Table{}
+		for i := 0; i < 260; i++ {
+			pad.Items = append(pad.Items, TItem{Kind: 0, E: num(float64(100001 + i))})
+		}
+		body = append([]Stmt{&Local{Names: []string{"pad_"}, Es: []Expr{pad}}, emit(&Un{Op: "#", A: &Var{Name: "pad_"}}, &Index{E: &Var{Name: "pad_"}, K: num(257)})}, body...)
+	}
 	// final observation of live variables
 	body = append(body, g.dumpVars()...)
 	if g.R.Chance(50) {
@@ -811,6 +822,16 @@ func (g *Gen) multiAssign(d int) []Stmt {
 		g.use("multiassign-rotate-expr")
 		return []Stmt{&Assign{LHS: []Expr{g.ref(a), g.ref(b)}, Es: []Expr{&Bin{Op: "+", A: g.ref(b), B: num(1)}, &Bin{Op: "*", A: g.ref(a), B: num(2)}}}, emit(g.ref(a), g.ref(b))}
 	case 2:
+		if s := g.pickSeqMutable(); s != nil && g.R.Bool() {
+			// t[k], k = v, k+1 : the key is evaluated before k is overwritten
+			g.use("multiassign-index-then-var")
+			tmp := g.fresh("k")
+			return []Stmt{
+				&Local{Names: []string{tmp}, Es: []Expr{&Bin{Op: "+", A: &Un{Op: "#", A: g.ref(s)}, B: num(1)}}},
+				&Assign{LHS: []Expr{&Index{E: g.ref(s), K: &Var{Name: tmp}}, &Var{Name: tmp}}, Es: []Expr{g.exprInt(1), &Bin{Op: "+", A: &Var{Name: tmp}, B: num(1)}}},
+				emit(&Var{Name: tmp}, &Un{Op: "#", A: g.ref(s)}),
+			}
+		}
 		if s := g.pickSeqMutable(); s != nil {
 			g.use("multiassign-index-and-var")
 			// i, t[i] = i+1, v  : the key uses the old i
@@ -906,7 +927,11 @@ func (g *Gen) numFor(depth, d int) []Stmt {
 	g.use("numfor")
 	x := g.fresh("i")
 	st := &NumFor{X: x}
-	switch g.R.Pick(40, 20, 15, 15, 10) {
+	needGuard := false
+	switch g.R.Pick(40, 20, 15, 15, 10, 4) {
+	case 5: // a zero step runs the body zero times when init < limit (the test is limit <= index)
+		st.A, st.B, st.C = num(float64(g.R.Range(0, 2))), num(float64(g.R.Range(3, 5))), num(0)
+		g.use("numfor-zero-step")
 	case 0:
 		st.A, st.B = num(1), num(float64(g.R.Range(0, 5)))
 	case 1:
@@ -918,6 +943,7 @@ func (g *Gen) numFor(depth, d int) []Stmt {
 	case 3:
 		st.A, st.B = g.exprInt(1), &Bin{Op: "+", A: g.exprInt(0), B: num(3)}
 		st.C = num(float64([]int{1, 2, 3}[g.R.Intn(3)]))
+		needGuard = true
 		// bound: loop at most ~ (range) iterations — operands small by construction; guard with break counter
 	default:
 		st.A, st.B = str("1"), num(3) // 5.1 coerces strings in for
@@ -939,14 +965,12 @@ func (g *Gen) numFor(depth, d int) []Stmt {
 	g.pop()
 	_ = guard
 	// limit iteration count for the expression-bounded form
-	if _, ok := st.A.(*Num); !ok {
-		if _, isStr := st.A.(*Str); !isStr {
-			cnt := g.fresh("k")
-			body = append([]Stmt{&Assign{LHS: []Expr{&Var{Name: cnt}}, Es: []Expr{&Bin{Op: "+", A: &Var{Name: cnt}, B: num(1)}}},
-				&If{C: &Bin{Op: ">", A: &Var{Name: cnt}, B: num(8)}, Then: []Stmt{&Break{}}}}, body...)
-			st.Body = body
-			return []Stmt{&Local{Names: []string{cnt}, Es: []Expr{num(0)}}, st}
-		}
+	if needGuard {
+		cnt := g.fresh("k")
+		body = append([]Stmt{&Assign{LHS: []Expr{&Var{Name: cnt}}, Es: []Expr{&Bin{Op: "+", A: &Var{Name: cnt}, B: num(1)}}},
+			&If{C: &Bin{Op: ">", A: &Var{Name: cnt}, B: num(8)}, Then: []Stmt{&Break{}}}}, body...)
+		st.Body = body
+		return []Stmt{&Local{Names: []string{cnt}, Es: []Expr{num(0)}}, st}
 	}
 	st.Body = body
 	return []Stmt{st}
